@@ -269,7 +269,8 @@ def run_case(world, case):
     valid = True
     stalled = [False]
     base = w.slots()             # slots held by the witness (and nothing else, if the previous case was torn down)
-    t_end = lambda: time.time() + WAIT
+    # after a first stall the run is repeated / judged failing anyway: do not wait long again in the same run
+    t_end = lambda: time.time() + (0.1 if stalled[0] else WAIT)
     t0 = time.time()
 
     def nextseq(c):
@@ -384,6 +385,14 @@ def run_case(world, case):
         kind = ev[0]
         idle_guard()
         watch["live"], watch["kind"] = live(), kind
+        if kind in ("req", "raise", "end") and ev[1] not in accepted:
+            # the daemon never completed this connection's handshake: nothing can be asked of it (the model ignores
+            # events on such a connection as well); an "end" just closes the client socket
+            if kind == "end" and not clients[ev[1]].closed:
+                clients[ev[1]].close()
+            settle([], expected_slots)
+            snapshot(kind)
+            continue
         if kind == "connect":
             c, ok = ev[1], ev[2]
             gated = len(ev) > 3 and ev[3] == "gated" and w.stype == "thread"
